@@ -62,3 +62,132 @@ C["kneeliverse.rdp.compute_removed_points"] = dict(
         ]),
     },
 )
+
+
+# ================================================================== C01 / C04: threshold RDP (mode U)
+PTS = "Seq[Tup[Real,Real]]"
+DIST = "Enum[kneeliverse.rdp.Distance]"
+METRIC = "Enum[kneeliverse.metrics.Metrics]"
+ORDER = "Enum[kneeliverse.rdp.Order]"
+
+C["kneeliverse.rdp.compute_cost_coef"] = dict(
+    mode="U", summary=True,
+    params={"pt": PTS, "coef": "Tup[Real,Real]", "cost": METRIC}, returns="Real",
+    requires=[], ensures=["result == uf('CostCoef', 'Real', pt, coef, cost)"],
+)
+
+N = "len(points)"
+SZ = "len(stack)"
+FRONT = "ite(len(stack) > 0, stack[len(stack)-1][0], len(points)-1)"
+RL = "len(reduced)"
+
+def reduced_table(red, rem, closing):
+    """removed[k] = [reduced[k], reduced[k+1]-reduced[k]-1]; the last row closes at `closing`"""
+    return [
+        "len(%s) == len(%s)" % (rem, red),
+        "forall(0, len(%s), lambda k: %s[k][0] == %s[k])" % (rem, rem, red),
+        "forall(0, len(%s) - 1, lambda k: %s[k][1] == %s[k+1] - %s[k] - 1)" % (rem, rem, red, red),
+        "implies(len(%s) > 0, %s[len(%s)-1][1] == %s - %s[len(%s)-1] - 1)" % (rem, rem, rem, closing, red, red),
+    ]
+
+def seg_cost(l, r):
+    """the cost the library's own primitives assign to points[l:r] (2-point segments: 0, or 1 for R2)"""
+    sl = "points[%s:%s]" % (l, r)
+    return ("ite((%s) - (%s) <= 2, ite(cost is metrics.Metrics.r2, 1.0, 0.0), "
+            "uf('CostCoef', 'Real', %s, (uf('LFb', 'Real', %s), uf('LFm', 'Real', %s)), cost))" % (r, l, sl, sl, sl))
+
+
+def accept(c):
+    """accepting side of the threshold - copied from the statement of C04: cost < t, or R2 >= t"""
+    return "ite(cost is metrics.Metrics.r2, (%s) >= t, (%s) < t)" % (c, c)
+
+
+def dist_seq(l, r):
+    """the distance array the requested Distance assigns to points[l:r] against its chord (library primitive, uninterpreted)"""
+    sl = "points[%s:%s]" % (l, r)
+    a = "points[%s]" % l
+    b = "points[(%s) - 1]" % r
+    n = "(%s) - (%s)" % (r, l)
+    return ("ite(distance is Distance.perpendicular, "
+            "ufa('Dist_perpendicular_distance_points', 'Real', %s, %s, %s, %s), "
+            "ufa('Dist_shortest_distance_points', 'Real', %s, %s, %s, %s))" % (n, sl, a, b, n, sl, a, b))
+
+
+def explained(v):
+    """C04 (X), scalar part: index v is explained by a split of the range [PL[v], PR[v]) recorded in the ghost
+    maps: v is strictly inside the range and the range's cost is on the rejecting side of t"""
+    l, r = "PL[%s]" % v, "PR[%s]" % v
+    return ("0 <= {l} and {l} < {v} and {v} < {r} - 1 and {r} <= len(points) and (not ({acc}))"
+            ).format(l=l, r=r, v=v, acc=accept(seg_cost(l, r)))
+
+
+def dominates(v, i):
+    """C04 (X), arg-max part: interior point i of the explaining range is not farther from the chord than v"""
+    l, r = "PL[%s]" % v, "PR[%s]" % v
+    D = dist_seq(l, r)
+    return "implies(1 <= {i} and {i} < {r} - {l} - 1, ({D})[{i}] <= ({D})[{v} - {l}])".format(l=l, r=r, v=v, i=i, D=D)
+
+
+C["kneeliverse.rdp.rdp"] = dict(
+    mode="U", owner="C01",
+    ghost_vars={"PL": "Seq[Int]", "PR": "Seq[Int]"},
+    params={"points": PTS, "t": "Real", "distance": DIST, "cost": METRIC},
+    returns="Tup[Seq[Int],Seq[Tup[Real,Real]]]",
+    locals={"stack": "Seq[Tup[Int,Int]]", "reduced": "Seq[Int]", "removed": "Seq[Tup[Real,Real]]"},
+    requires=[
+        "len(points) >= 2",
+        "t > 0",
+        "implies(cost is metrics.Metrics.r2, t <= 1)",
+    ],
+    ensures=[
+        # (W) well-formed reduction
+        "len(result[0]) >= 2",
+        "result[0][0] == 0",
+        "result[0][len(result[0])-1] == len(points) - 1",
+        "forall2(0, len(result[0]), lambda a, b: result[0][a] < result[0][b])",
+        # (R) removed table: one row [left index, dropped interior points] per retained segment
+        "len(result[1]) == len(result[0]) - 1",
+        "forall(0, len(result[1]), lambda k: result[1][k][0] == result[0][k] and result[1][k][1] == result[0][k+1] - result[0][k] - 1)",
+        # C04 (K): every retained segment with interior points is on the accepting side of t
+        "@C04 forall(0, len(result[0]) - 1, lambda k: implies(result[0][k+1] - result[0][k] >= 2, %s))" % accept(seg_cost("result[0][k]", "result[0][k+1] + 1")),
+        # C04 (X): every retained interior index is explained by a recursive split (ghost witnesses PL, PR)
+        "@C04 forall(1, len(result[0]) - 1, lambda k: %s)" % explained("result[0][k]"),
+        "@C04 forall(1, len(result[0]) - 1, lambda k: forall(0, len(points), lambda i: %s))" % dominates("result[0][k]", "i"),
+    ],
+    loops={0: dict(
+        inv=[
+            "@C04 forall(0, %s - 1, lambda k: implies(reduced[k+1] - reduced[k] >= 2, %s))" % (RL, accept(seg_cost("reduced[k]", "reduced[k+1] + 1"))),
+            "@C04 implies(%s > 0 and %s - reduced[%s-1] >= 2, %s)" % (RL, FRONT, RL, accept(seg_cost("reduced[%s-1]" % RL, "%s + 1" % FRONT))),
+            # work stack: segments with >= 2 points that tile [FRONT, n) from top to bottom
+            "forall(0, %s, lambda k: 0 <= stack[k][0] and stack[k][1] <= %s and stack[k][1] - stack[k][0] >= 2)" % (SZ, N),
+            "implies(%s > 0, stack[0][1] == %s)" % (SZ, N),
+            "forall(0, %s - 1, lambda k: stack[k][0] == stack[k+1][1] - 1)" % SZ,
+            "forall(0, %s, lambda k: stack[k][1] + k <= %s)" % (SZ, N),
+            # retained prefix
+            "iff(%s == 0, %s == 0)" % (RL, FRONT),
+            "implies(%s > 0, reduced[0] == 0 and reduced[%s-1] < %s)" % (RL, RL, FRONT),
+            "forall2(0, %s, lambda a, b: reduced[a] < reduced[b])" % RL,
+        ] + reduced_table("reduced", "removed", FRONT) + [
+            "@C04 forall2(0, %s, lambda a, b: stack[a][0] >= stack[b][1] - 1)" % SZ,
+            "@C04 forall(0, %s, lambda k: implies(stack[k][0] > 0, %s))" % (SZ, explained("stack[k][0]")),
+            "@C04 forall(1, %s, lambda k: %s)" % (RL, explained("reduced[k]")),
+            "@C04 forall(0, %s, lambda k: forall(0, len(points), lambda i: implies(stack[k][0] > 0, %s)))" % (SZ, dominates("stack[k][0]", "i")),
+            "@C04 forall(1, %s, lambda k: forall(0, len(points), lambda i: %s))" % (RL, dominates("reduced[k]", "i")),
+        ],
+        # ghost: when a segment was split (stack grew by one), record its range as the explanation of the split index
+        ghost_end=[
+            "PL = ite(len(stack) == len(_h_stack) + 1, store(PL, stack[len(stack)-1][1] - 1, stack[len(stack)-1][0]), PL)",
+            "PR = ite(len(stack) == len(_h_stack) + 1, store(PR, stack[len(stack)-1][1] - 1, stack[len(stack)-2][1]), PR)",
+        ],
+        hints=[
+            "@C04 implies(len(stack) == len(_h_stack) + 1, PL[stack[len(stack)-1][1] - 1] == stack[len(stack)-1][0] and PR[stack[len(stack)-1][1] - 1] == stack[len(stack)-2][1])",
+            "@C04 implies(len(stack) == len(_h_stack) + 1, forall(0, len(_h_stack) - 1, lambda k: stack[k][0] != stack[len(stack)-1][1] - 1 and PL[stack[k][0]] == _h_PL[stack[k][0]] and PR[stack[k][0]] == _h_PR[stack[k][0]]))",
+            "@C04 implies(len(stack) == len(_h_stack) + 1, forall(0, len(points), lambda i: %s))" % dominates("(stack[len(stack)-1][1] - 1)", "i"),
+            "@C04 implies(len(stack) == len(_h_stack) + 1, stack[len(stack)-2][0] == stack[len(stack)-1][1] - 1 and stack[len(stack)-1][0] == _h_stack[len(_h_stack)-1][0])",
+            "@C04 implies(len(stack) == len(_h_stack) + 1, forall(0, len(_h_stack) - 1, lambda k: forall(0, len(points), lambda i: implies(stack[k][0] > 0, %s))))" % dominates("stack[k][0]", "i"),
+            "@C04 implies(len(stack) == len(_h_stack) + 1 and stack[len(stack)-1][0] > 0, forall(0, len(points), lambda i: %s))" % dominates("stack[len(stack)-1][0]", "i"),
+        ],
+        # (T) termination, linear in n: V0 = 2n-3
+        var="2 * (%s - 1 - %s) - %s" % (N, FRONT, SZ),
+    )},
+)
